@@ -224,13 +224,19 @@ def _strkeys(rule):
 
 
 def send_message(spec):
-    """spec -> the (attr, nlri, withdraw) the REST layer hands to api/utils.py (JSON shapes: lists, text keys)"""
+    """spec -> the (attr, nlri, withdraw) the REST layer hands to api/utils.py (JSON shapes: lists, text keys).
+    `rev`: the members of every flowspec rule are written in the opposite order (the same rule, the same octets on the wire:
+    a JSON object has no member order)"""
     attr = copy.deepcopy(SEND_ATTRS[spec['a']]) if spec.get('a') is not None else {}
+    _sk = _strkeys
+    if spec.get('rev'):
+        def _sk(rule):      # noqa: F811
+            return dict(reversed(list(_strkeys(rule).items())))
     r, u = spec.get('r'), spec.get('u')
     constructible = True
     if r:
         if r[0] == 'fs':
-            attr[14] = {'afi_safi': [1, 133], 'nexthop': '', 'nlri': [_strkeys(FS_RULES[i]) for i in r[1]]}
+            attr[14] = {'afi_safi': [1, 133], 'nexthop': '', 'nlri': [_sk(FS_RULES[i]) for i in r[1]]}
         elif r[0] == 'vpn':
             attr[14] = {'afi_safi': [1, 128], 'nexthop': {'rd': '0:0', 'str': '2.2.2.2'},
                         'nlri': [dict(VPN_ROUTES[i], label=list(VPN_LABELS[li])) for i, li in r[1]]}
@@ -241,7 +247,7 @@ def send_message(spec):
             attr[14] = {'afi_safi': [2, 1], 'nexthop': '2001:db8::2', 'nlri': ['2001:db8:1::/64']}
     if u:
         if u[0] == 'fs':
-            attr[15] = {'afi_safi': [1, 133], 'withdraw': [_strkeys(FS_RULES[i]) for i in u[1]]}
+            attr[15] = {'afi_safi': [1, 133], 'withdraw': [_sk(FS_RULES[i]) for i in u[1]]}
         elif u[0] == 'vpn':
             # a REST client may repeat the label it announced, give another one, or (li None) leave it out
             attr[15] = {'afi_safi': [1, 128],
